@@ -5,6 +5,7 @@
 -/
 import GriddleModel.Protocol
 import GriddleModel.Iter
+import GriddleModel.Set
 import GriddleModel.Panic
 open Griddle
 
@@ -277,6 +278,16 @@ def replayLine (s : DState) (op : String) (mid : Nat) (args : List String) (orc 
       | some p => finF (resolveEmptF (fun e => Map.drainFilterFusedOut m p fuse { o with empt := e }) glObs)
   | "freplace", [k, kid] => nat k fun k => nat kid fun kid => needMap fun m =>
       finF (resolveEmptF (fun e => Map.replaceFusedOut m k kid { o with empt := e }) glObs)
+  | "setalg", [] =>
+      -- stateless: the set-operation adaptors of src/set.rs against `GriddleModel/Set.lean`
+      let a := SetAlg.viewOfIter (fieldList orc "ai") (fieldNat orc "al")
+      let b := SetAlg.viewOfIter (fieldList orc "bi") (fieldNat orc "bl")
+      let ks (l : List Nat) : String := if l.isEmpty then "-" else ",".intercalate (l.map toString)
+      let bit (x : Bool) : String := if x then "1" else "0"
+      .ok s [("union", ks (SetAlg.union a b)), ("inter", ks (SetAlg.intersection a b)), ("diff", ks (SetAlg.difference a b)),
+             ("symdiff", ks (SetAlg.symmetricDifference a b)), ("disjoint", bit (SetAlg.isDisjoint a b)),
+             ("subset", bit (SetAlg.isSubset a b)), ("superset", bit (SetAlg.isSuperset a b)), ("eq", bit (SetAlg.eq a b)),
+             ("panic", "-")]
   | "drop", [] => needMap fun m =>
       .ok (delMap s mid) [("drop", fmtIds (Map.dropAll m).dropped), ("df", toString (Map.dropAll m).frees)]
   | "forget", [] => .ok (delMap s mid) []
